@@ -40,6 +40,25 @@ def tb_rows(ns):
     return a
 
 
+UNSIZED_BASE = '''#%yanny
+# base file with an unsized string column
+k0 0
+
+typedef struct {
+    int n;
+    char s[];
+} TA;
+
+typedef struct {
+    int n;
+    int arr[2];
+} TB;
+
+TA 1 v1
+TA 2 "a b2"
+'''
+
+
 class World:
     """Real files in a scratch directory + one real yanny object."""
 
@@ -53,7 +72,12 @@ class World:
         if start == NOFILE:
             self.par = yanny()
         else:
-            write_ndarray_to_yanny(self.path(start), [ta_rows([1, 2]), tb_rows([])], structnames=['TA', 'TB'], hdr={'k0': 0})
+            if rng.random() < 0.5:
+                write_ndarray_to_yanny(self.path(start), [ta_rows([1, 2]), tb_rows([])], structnames=['TA', 'TB'], hdr={'k0': 0})
+            else:
+                # the same base content as a hand-written file whose string column is unsized (char s[])
+                with open(self.path(start), 'w') as fh:
+                    fh.write(UNSIZED_BASE)
             self.par = yanny(self.path(start), raw=raw)
 
     def path(self, f):
